@@ -209,6 +209,15 @@ def run_tree(case, v):
         if level[id(par)] >= 5 or len(allp) > 40:
             continue
         kids = [mk() for _ in range(int(rng.integers(1, 4)))]
+        if rng.random() < 0.2:
+            # children offered for a particle that is not in the tree: refused, and nothing of the refused call may stay behind
+            try:
+                ev.add_children(mk(), kids[0] if len(kids) == 1 else kids)
+                v.check(False, "children for a particle outside the tree are refused", ops=ops)
+            except ValueError:
+                pass
+            ops.append("add_children(stranger, %d) refused" % len(kids))
+            continue
         single = len(kids) == 1 and rng.random() < 0.5
         form = "single" if single else str(rng.choice(["list", "tuple", "object array"]))
         ev.add_children(par, kids[0] if single else {"list": list, "tuple": tuple, "object array": lambda k_: np.array(k_, dtype=object)}[form](kids))
